@@ -167,6 +167,30 @@ class CmdWord(Position):
         return s in info['cmdwords'] and s not in RESERVED_WORDS
 
 
+class CmdArgLongLine(Position):
+    """the string as an argument at MANY columns of one very long command line (25 commands joined,
+    each with a padding word one character longer than the last): whatever the backend does to long
+    lines (wrapping, continuation) must not touch the argument.  Strings with blanks only."""
+    name = 'command_arg_long_line'
+    PADS = list(range(30, 80, 2))
+
+    def admissible(self, s, info):
+        return ' ' in s or '\t' in s
+
+    def script(self, strings):
+        return '\n'.join("command('c%d', cmds=[%s])" % (
+            i, ', '.join("['rec', 'ID%d_%d', %r, %s, 'tail']" % (i, k, 'p' * k, py(s)) for k in self.PADS))
+            for i, s in enumerate(strings)) + '\n'
+
+    def observe(self, i, s, recs):
+        pre = 'ID%d_' % i
+        r = _find(recs, lambda r: r['tool'] == 'rec' and r['argv'][1:2] and r['argv'][1].startswith(pre))
+        return sorted((int(x['argv'][1][len(pre):]), x['argv'][3:]) for x in r)
+
+    def expected(self, s):
+        return [(k, [s, 'tail']) for k in self.PADS]
+
+
 class CmdWordLater(CmdWord):
     """the command word of the SECOND command of a step that also has an environment: not the
     first word of the recipe line"""
@@ -601,7 +625,7 @@ class CopyPath(FilePosition):
         return [[a.replace(pre, 'out#/') for a in x['argv']] for x in r]
 
 
-POSITIONS = [CmdArg(), CmdArgEnvBoth(), BuildStepArg(), CmdWord(), CmdWordLater(), EnvValue(), EnvValueShellLine(), TestArg(),
+POSITIONS = [CmdArg(), CmdArgEnvBoth(), CmdArgLongLine(), BuildStepArg(), CmdWord(), CmdWordLater(), EnvValue(), EnvValueShellLine(), TestArg(),
              DriverArg(False), DriverArg(True), DriverWord(), CompileOpt(), DefineOpt(),
              LinkOpt(), GlobalOpt(), CompileOptString(), LinkOptString(), EnvFlags(), ToolPath()]
 POS = {p.name: p for p in POSITIONS}
